@@ -10,13 +10,35 @@ import (
 	"flag"
 	"fmt"
 	"os"
+	"runtime"
+	"runtime/debug"
+	"runtime/pprof"
 	"strconv"
 	"strings"
+	"syscall"
 
 	"verif/engine/symgo"
 )
 
 func main() {
+	// Touching fresh pages is very expensive in this sandbox: keep the heap small and do not hand memory back to the
+	// OS eagerly. GODEBUG must be set before the runtime starts, hence the re-exec.
+	if os.Getenv("SYMGO_REEXEC") == "" {
+		env := append(os.Environ(), "SYMGO_REEXEC=1")
+		if os.Getenv("GOGC") == "" {
+			env = append(env, "GOGC=50")
+		}
+		if os.Getenv("GODEBUG") == "" {
+			env = append(env, "GODEBUG=madvdontneed=0")
+		}
+		if exe, err := os.Executable(); err == nil {
+			_ = syscall.Exec(exe, os.Args, env)
+		}
+	}
+	_ = debug.SetGCPercent
+	if os.Getenv("VERIF_MEMPROFILE") != "" {
+		runtime.MemProfileRate = 64 * 1024
+	}
 	if len(os.Args) < 2 {
 		fmt.Fprintln(os.Stderr, "usage: symgo explore|check|replay ...")
 		os.Exit(2)
@@ -84,7 +106,13 @@ func explore(args []string) {
 	maxPaths := fs.Int("maxpaths", 0, "max paths")
 	mapOrder := fs.Bool("maporder", false, "explore map iteration orders")
 	threads := fs.Int("threads", 1, "max threads")
+	cpuprof := fs.String("cpuprofile", "", "write cpu profile")
 	fs.Parse(args)
+	if *cpuprof != "" {
+		f, _ := os.Create(*cpuprof)
+		pprof.StartCPUProfile(f)
+		defer pprof.StopCPUProfile()
+	}
 	e, err := loadEngine(strings.Split(*patterns, ","))
 	if err != nil {
 		fmt.Fprintln(os.Stderr, err)
@@ -114,6 +142,17 @@ func explore(args []string) {
 	}
 	if *trace {
 		opt.SingleWorker = true
+	}
+	if mp := os.Getenv("VERIF_MEMPROFILE"); mp != "" {
+		defer func() {
+			f, _ := os.Create(mp)
+			pprof.Lookup("allocs").WriteTo(f, 0)
+			f.Close()
+		}()
+	}
+	if os.Getenv("VERIF_PROF_ENV") != "" {
+		symgo.EnableEnvProfile()
+		defer symgo.DumpEnvProfile()
 	}
 	res := e.Explore(f, opt)
 	res.Funcs = nil
